@@ -58,6 +58,8 @@ type FuncContract struct {
 	NoReturn bool
 	Inline   bool
 	Modifies []string
+	After    []*AfterClause
+	Reveal   []string
 	Frames   []*FrameClause
 	Props    []string
 	File     string
@@ -81,6 +83,14 @@ type FrameClause struct {
 	File    string
 }
 
+// AfterClause: "after <callee key> [#k] assert #label expr" — a proof hint checked (then assumed) right after the k-th
+// (default: every) call to the callee in the function under contract; "result" names the call's result.
+type AfterClause struct {
+	Callee  string
+	Ordinal int
+	Clause  *Clause
+}
+
 type SpecDef struct {
 	Name   string
 	Params []CBinder
@@ -88,6 +98,7 @@ type SpecDef struct {
 	Body   CExpr // nil for ufun
 	IsPred bool
 	IsUfun bool
+	Opaque bool
 	Src    string
 	File   string
 	Line   int
@@ -102,6 +113,7 @@ type Axiom struct {
 }
 
 type Lemma struct {
+	Props    []string
 	Name     string
 	Params   []CBinder
 	Requires []*Clause
@@ -123,7 +135,7 @@ type Contracts struct {
 var clauseKW = map[string]bool{
 	"spec": true, "pred": true, "ufun": true, "axiom": true, "lemma": true, "func": true,
 	"requires": true, "ensures": true, "loop": true, "trusted": true, "pure": true, "noreturn": true,
-	"inline": true, "modifies": true, "use": true, "decreases": true, "case": true, "frame": true,
+	"inline": true, "modifies": true, "reveal": true, "after": true, "use": true, "decreases": true, "case": true, "frame": true,
 }
 
 var labelRe = regexp.MustCompile(`^#([A-Za-z0-9_\-:.]+)\s*`)
@@ -225,11 +237,18 @@ func (cs *Contracts) loadFile(path string) error {
 			cs.Axioms = append(cs.Axioms, &Axiom{Label: c.Label, Expr: c.Expr, Src: c.Src, File: base, Line: rc.line})
 		case "lemma":
 			curF = nil
+			var lprops []string
+			if i := strings.LastIndex(rest, "["); i >= 0 && strings.HasSuffix(strings.TrimSpace(rest), "]") && strings.Contains(rest[i:], "C") {
+				for _, p := range strings.FieldsFunc(strings.Trim(rest[i:], "[] "), func(r rune) bool { return r == ' ' || r == ',' }) {
+					lprops = append(lprops, p)
+				}
+				rest = strings.TrimSpace(rest[:i])
+			}
 			name, params, _, err := parseSig(rest)
 			if err != nil {
 				return fmt.Errorf("%s:%d: %v", path, rc.line, err)
 			}
-			curL = &Lemma{Name: name, Params: params, File: base, Line: rc.line}
+			curL = &Lemma{Name: name, Params: params, File: base, Line: rc.line, Props: lprops}
 			cs.Lemmas[name] = curL
 		case "func":
 			curL = nil
@@ -348,6 +367,39 @@ func (cs *Contracts) loadFile(path string) error {
 			curF.NoReturn = true
 		case "inline":
 			curF.Inline = true
+		case "after":
+			if curF == nil {
+				return fmt.Errorf("%s:%d: after outside func", path, rc.line)
+			}
+			parts := strings.SplitN(rest, " assert ", 2)
+			if len(parts) != 2 {
+				return fmt.Errorf("%s:%d: after needs '<callee> assert <expr>'", path, rc.line)
+			}
+			ac := &AfterClause{}
+			cf := strings.Fields(parts[0])
+			ac.Callee = cf[0]
+			if len(cf) > 1 {
+				n, err := strconv.Atoi(strings.TrimPrefix(cf[1], "#"))
+				if err != nil {
+					return fmt.Errorf("%s:%d: after: bad ordinal", path, rc.line)
+				}
+				ac.Ordinal = n
+			}
+			c, err := mkClause("assert", parts[1])
+			if err != nil {
+				return err
+			}
+			ac.Clause = c
+			curF.After = append(curF.After, ac)
+		case "reveal":
+			if curF == nil {
+				return fmt.Errorf("%s:%d: reveal outside func", path, rc.line)
+			}
+			for _, m := range strings.Split(rest, ",") {
+				if m = strings.TrimSpace(m); m != "" {
+					curF.Reveal = append(curF.Reveal, m)
+				}
+			}
 		case "modifies":
 			for _, m := range strings.Split(rest, ",") {
 				if m = strings.TrimSpace(m); m != "" {
@@ -411,6 +463,10 @@ func parseSig(s string) (name string, params []CBinder, ret CType, err error) {
 
 func parseSpecDef(kw, rest string) (*SpecDef, error) {
 	sd := &SpecDef{IsPred: kw == "pred", IsUfun: kw == "ufun", Src: rest}
+	if strings.HasPrefix(rest, "opaque ") {
+		sd.Opaque = true
+		rest = strings.TrimSpace(strings.TrimPrefix(rest, "opaque "))
+	}
 	sig, body := rest, ""
 	if i := strings.Index(rest, ":="); i >= 0 {
 		sig, body = strings.TrimSpace(rest[:i]), strings.TrimSpace(rest[i+2:])
